@@ -235,6 +235,8 @@ class Env:
         self.d, self.p, self.s0 = C.lib_world(ctx, W, tag=tag)
         self.locate_dir = locate_dir
         self.tag = tag
+        # exporter objects that every client thread of this world uses (helpers are shared the way the domain is)
+        self.exporters = {a: L().TrajectoryExporter(self.d, allow_invalid_actions=a) for a in (False, True)}
 
 
 def exec_op(env, ops, i, store):
@@ -376,8 +378,9 @@ def exec_op(env, ops, i, store):
         return ("state", strip_types(st.typed_serialize()))
     if k == "trajectory":
         try:
-            tr = lib.TrajectoryExporter(d, allow_invalid_actions=o["allow"]).parse_plan(
-                p, action_sequence=[C.fmt_call(*c) for c in o["plan"]])
+            exporter = lib.TrajectoryExporter(d, allow_invalid_actions=o["allow"]) if env.baseline else \
+                env.exporters[o["allow"]]
+            tr = exporter.parse_plan(p, action_sequence=[C.fmt_call(*c) for c in o["plan"]])
             return ("states", tuple(repr(sorted(C.abs_state(t.next_state, "parse_plan", ID)[0])) +
                                     repr(sorted(C.abs_state(t.next_state, "parse_plan", ID)[1].items())) for t in tr))
         except schedmod.SimCancel:
@@ -536,6 +539,31 @@ def run(ctx):
         raise Skip()
     scripts = [gen_script(ctx, W, t, 3 + t.draw(7), plan_hint, plan_det) for _ in range(nthreads)]
     scripts = [s for s in scripts if s]
+    dense = False
+    if plan_det and nthreads >= 2 and cfg.chance(1, 5):
+        # helper-sharing scenario: every thread exports trajectories through the world's shared exporters; the plan
+        # repeats one call as long as it stays applicable (counters), so the threads evaluate the same grounded call on
+        # different states; pre-emption is dense
+        rep = []
+        cur = interp.init_state(W.P)
+        c0 = plan_hint[0]
+        for _ in range(6):
+            try:
+                if not interp.applicable(cur, W.action(c0[0]), c0[1], W.D, W.objs):
+                    break
+                nxt = interp.successor(cur, W.action(c0[0]), c0[1], W.D, W.objs)[0]
+            except (interp.Inconsistent, interp.Undefined):
+                break
+            if interp.too_large(nxt):
+                break
+            rep.append(c0)
+            cur = nxt
+        if len(rep) >= 2:
+            allow = t.chance(1, 2)
+            scripts = [[{"kind": "trajectory", "plan": rep[: 2 + t.draw(len(rep) - 1)], "allow": allow, "det": True}
+                        for _ in range(2 + t.draw(2))] for _ in range(nthreads)]
+            dense = True
+            ctx.probes["shared_exporter_scenario"] += 1
     if not scripts:
         raise Skip()
     nthreads = len(scripts)
@@ -604,7 +632,7 @@ def run(ctx):
         forced = sorted({1 + sc.draw(est) for _ in range(sc.draw(5))})
     if cancel_mode:
         cancel_at = sorted({1 + sc.draw(est) for _ in range(1 + sc.draw(2))})
-    S = schedmod.Sched(sc, pkg, p_num=(1 if nthreads > 1 else 0), p_den=[50, 200, 1000][cfg.draw(3)],
+    S = schedmod.Sched(sc, pkg, p_num=(1 if nthreads > 1 else 0), p_den=12 if dense else [50, 200, 1000][cfg.draw(3)],
                        forced=forced, cancel_at=cancel_at)
     for ti in range(nthreads):
         S.spawn(f"client{ti}", make_client(ti))
